@@ -630,6 +630,10 @@ Proof.
     split; [reflexivity|]. split; [intros _; repeat split; assumption|reflexivity].
 Qed.
 
+Lemma read_block_thm s n s1 rc :
+  read_full s n = (s1, RBlock, rc) -> s1 = s /\ rc = None /\ bufptr s = [] /\ peeksize (core s) <= 0.
+Proof. intros H. exact (proj1 (proj2 (read_full_thm s n s1 RBlock rc H)) eq_refl). Qed.
+
 Lemma read_step_full s n : read_step s n = (fst (fst (read_full s n)), snd (fst (read_full s n))).
 Proof. unfold read_step. destruct (read_full s n) as [[s1 out] rc]. reflexivity. Qed.
 
